@@ -472,6 +472,30 @@ func (f *File) Stat() (os.FileInfo, error) {
 	f.ioLock.Lock()
 	defer f.ioLock.Unlock()
 
+	// Report the entry's current attributes, not the ones it had when the file was opened; it might have been
+	// changed (chmod, chown, chtimes) in the meantime. If it is gone, the file is like an unlinked one and keeps its last attributes
+	if current, err := inventory.Stat(
+		f.metadata,
+
+		f.path,
+		false,
+
+		f.onHeader,
+	); err == nil && current.FileInfo().IsDir() == f.info.isDir {
+		f.info.mode = current.FileInfo().Mode()
+		f.info.modTime = current.ModTime
+		f.info.accessTime = current.AccessTime
+		f.info.changeTime = current.ChangeTime
+		f.info.uid = current.Uid
+		f.info.gid = current.Gid
+
+		if f.writeBuf == nil {
+			f.info.size = current.FileInfo().Size()
+		}
+	} else if err != nil && err != sql.ErrNoRows {
+		return nil, err
+	}
+
 	if f.writeBuf != nil {
 		size, err := f.writeBuf.Size()
 		if err != nil {
